@@ -230,3 +230,13 @@ def getPitchMeasures(f0Values, name=None, label=None, medianFilterWindowSize=Non
     mean = sum(vs) / float(len(vs))
     var = sum([(v - mean) ** 2 for v in vs]) / float(len(vs))
     return (mean, max(vs), min(vs), max(vs) - min(vs), var, math.sqrt(var))
+
+
+def KlattContainerTier_modifySubtiers(self, tierName, modFunc):
+    """every value of every point tier of the addressed intermediate tier goes through modFunc exactly once; times,
+    the other intermediate tiers and the hierarchy are untouched; an unknown tier name is a KeyError"""
+    if tierName not in self.tierDict:
+        raise KeyError(tierName)
+    kit = self.tierDict[tierName]
+    for name in kit.tierNameList:
+        KlattPointTier_modifyValues(kit.tierDict[name], modFunc)
